@@ -39,44 +39,6 @@ def Step.run {α} : Step α → DevRun
   | .radioErr r => r
   | .macErr r => r
 
-/-- `handle_rxc` ignores MAC commands: the configuration stands -/
-theorem sessionHandleRx_c_cfg (s : Session) (cfg : Config) (region : RegionState) (d : RxData) (mp : Nat) (snr : Int)
-    (o : RxOut) (s' : Session) (cfg' : Config) (region' : RegionState)
-    (h : sessionHandleRx s cfg region d mp snr true = .ok (o, s', cfg', region')) : cfg' = cfg := by
-  unfold sessionHandleRx at h
-  split at h
-  · simp only [if_true, pure, Except.pure, Except.ok.injEq, Prod.mk.injEq] at h
-    exact h.2.2.1.symm
-  · split at h
-    · simp only [pure, Except.pure, Except.ok.injEq, Prod.mk.injEq] at h
-      exact h.2.2.1.symm
-    · split at h
-      · simp only [pure, Except.pure, Except.ok.injEq, Prod.mk.injEq] at h
-        exact h.2.2.1.symm
-      · simp only [if_true, pure_bind] at h
-        by_cases hx : (s.fcntUp == 0xFFFFFFFF) = true
-        · cases hc : d.confirmed <;>
-            simp only [hc, hx, Bool.false_eq_true, if_false, if_true, pure, Except.pure, Except.ok.injEq,
-              Prod.mk.injEq] at h <;> exact h.2.2.1.symm
-        · cases hc : d.confirmed <;>
-            simp only [hc, hx, Bool.false_eq_true, if_false, if_true, pure, Except.pure, Except.ok.injEq,
-              Prod.mk.injEq] at h <;> exact h.2.2.1.symm
-
-theorem macHandleRx_c_cfg (m : MacState) (v : RxView) (mp : Nat) (snr : Int) (o : Option RxOut) (m' : MacState)
-    (h : macHandleRx m v mp snr true = .ok (o, m')) : m'.cfg = m.cfg := by
-  unfold macHandleRx at h
-  split at h
-  · split at h
-    · obtain ⟨⟨o', s', cfg', region'⟩, hs, h⟩ := Except.bind_eq_ok h
-      simp only [pure, Except.pure, Except.ok.injEq, Prod.mk.injEq] at h
-      obtain ⟨_, rfl⟩ := h
-      exact sessionHandleRx_c_cfg _ _ _ _ _ _ _ _ _ _ hs
-    · cases h; rfl
-  · simp only [if_true, pure, Except.pure, Except.ok.injEq, Prod.mk.injEq] at h
-    rw [← h.2]
-  · simp only [if_true, pure, Except.pure, Except.ok.injEq, Prod.mk.injEq] at h
-    rw [← h.2]
-
 theorem rxcLoop_calls (cfg : DevCfg) (rf : RfConfig) (mp d : Nat) (fuel : Nat) (r : DevRun) (st : Step Unit)
     (h : rxcLoop mp d fuel r = .ok st) : CallsSince (WinCall cfg rf d) r st.run ∧ st.run.m.cfg = r.m.cfg := by
   induction fuel generalizing r with
